@@ -303,9 +303,11 @@ namespace c10
   void refine_chain_node(vh::Ctx& c, std::unique_ptr<typename Ty<Shape_>::Node> node, Geometry::AdaptMode mode, Idx cap, const std::string& opname)
   {
     const ShapeTab t = ShapeSel<Shape_>::tab(); const int dim = t.dim;
-    const bool none = (mode == Geometry::AdaptMode::none);
+    // AdaptMode::dual without charts re-averages the cell centres from the facet midpoints: geometrically a no-op
+    const bool dual = (mode == Geometry::AdaptMode::dual);
+    const bool none = (mode == Geometry::AdaptMode::none) || dual;
     MeshSnap cs; snap_node<Shape_>(*node, cs, none);
-    MeshInfo ci; RefineOpts o; o.geometry = none;
+    MeshInfo ci; RefineOpts o; o.geometry = none; if(dual) o.coord_ulps = 64;
     if(!validate_input<Shape_>(c, cs, ci, o)) return;
     c.tag(cells_bucket(cs.n[dim]));
     c.set_op(opname);
@@ -549,7 +551,11 @@ namespace c10
       c.set_op(op);
       if(!permute_node<Shape_>(c, *node, strategies[si], op)) return;
     }
-    refine_chain_node<Shape_>(c, std::move(node), Geometry::AdaptMode::none, cap, "refine_unique.none");
+    // chart-free meshes: the dual adaption mode (cell centres := mean of the facet midpoints) must leave a refined mesh
+    // that satisfies the same oracles as AdaptMode::none
+    const bool dual = r.coin(0.3);
+    if(dual) c.tag("adapt:dual");
+    refine_chain_node<Shape_>(c, std::move(node), dual ? Geometry::AdaptMode::dual : Geometry::AdaptMode::none, cap, dual ? "refine_unique.dual" : "refine_unique.none");
   }
 
   // ------------------------------------------------------------------------------------------ mesh files
